@@ -79,6 +79,15 @@ CHECKS = {
             "optional groups per Create.tla!Opt; missing values (None/NaN/''/absent column) are one token; name and geodata "
             "columns excluded",
             "TLC-enumerated creation configurations executed on both routes; provenance rows compared by TLC", "§4 C24"),
+    "C25": ("model_checking",
+            "StdTypes.tla: the type library of two nets as a state machine (create with/without overwrite, rename, delete, "
+            "copy); every maximal history is replayed and TLC compares load_std_type of every name after every step and "
+            "which calls raise. StdApply.tla enumerates element kind x type shape x route (create / change_std_type): TLC "
+            "checks that every calculation-relevant parameter of the type is in the row. Built-in types are applied and "
+            "compared in a power flow with explicitly parameterised elements (TLC, fixed point).",
+            "'every parameter' read as the calculation-relevant ones (StdTypesObs!Relevant); fuse types not covered; quick "
+            "samples 12 built-in types per kind, thorough all",
+            "TLC-generated library histories and apply configurations replayed; equality decided by TLC", "§4 C25"),
 }
 
 NOT_APPLICABLE = {
